@@ -2,6 +2,9 @@ package node
 
 import (
 	"math"
+	"os"
+	"strconv"
+	"strings"
 
 	"github.com/bytom/bytom/consensus"
 	"github.com/bytom/bytom/crypto/sha3pool"
@@ -31,6 +34,13 @@ func ConfigureLedgerAs(nval, me int) {
 	p := consensus.ActiveNetParams
 	p.MinValidatorVoteNum = 100000000000000 // vote outputs never change the validator set
 	p.VotePendingBlockNums = []consensus.VotePendingBlockNum{{BeginBlock: 0, EndBlock: math.MaxUint64, Num: VoteLock}}
+	// VERIF_LOCKTABLE=a,step,b: a blocks below height step, b from there on (Ledger.tla: VoteLock, LockStep, VoteLock2)
+	if f := strings.Split(os.Getenv("VERIF_LOCKTABLE"), ","); len(f) == 3 {
+		a, _ := strconv.ParseUint(f[0], 10, 64)
+		st, _ := strconv.ParseUint(f[1], 10, 64)
+		b, _ := strconv.ParseUint(f[2], 10, 64)
+		p.VotePendingBlockNums = []consensus.VotePendingBlockNum{{BeginBlock: 0, EndBlock: st, Num: a}, {BeginBlock: st, EndBlock: math.MaxUint64, Num: b}}
+	}
 	consensus.ActiveNetParams = p
 }
 
